@@ -2038,6 +2038,14 @@ EGLPNUM_TYPENAME_QSLIB_INTERFACE int EGLPNUM_TYPENAME_QSload_basis_and_row_norms
 
 	nrows = p->qslp->nrows;
 
+	if (nrows > 0 && rownorms == 0)
+	{
+		/* refuse before the current basis is replaced */
+		QSlog("EGLPNUM_TYPENAME_QSload_basis_and_row_norms_array called without rownorms");
+		rval = 1;
+		goto CLEANUP;
+	}
+
 	rval = EGLPNUM_TYPENAME_QSload_basis_array (p, cstat, rstat);
 	CHECKRVALG (rval, CLEANUP);
 	p->basis->rownorms = EGLPNUM_TYPENAME_EGlpNumAllocArray (nrows);
